@@ -1,7 +1,9 @@
 """C15-C17: calling every documented read accessor of a running order, its stories and items, and
 recording what came back (or which accessor raised) in the encoding of spec/MosObserve.tla."""
 import json
+import os
 import random
+import time
 import warnings
 
 from . import project, tlc, pipeline
@@ -92,6 +94,16 @@ def observe(ro):
     return {"raised": raised, "exact": flags["exact"], "ro": o_ro, "stories": o_st}
 
 
+def observe_twice(ro):
+    """the accessors are functions of the document: asking again gives the same answers (anything else is recorded as a
+    raised accessor, i.e. obs_total fails)"""
+    first = observe(ro)
+    second = observe(ro)
+    if json.dumps(first, sort_keys=True) != json.dumps(second, sort_keys=True):
+        second["raised"] = list(second["raised"]) + ["repeat:DifferentAnswer"]
+    return second
+
+
 # ------------------------------------------------------------------------------------------
 # rendering a view (spec/MC_observe.tla) to running-order XML
 # ------------------------------------------------------------------------------------------
@@ -106,6 +118,8 @@ def num(q, rng=None):
     if rng is None:
         return plain
     k = rng.random()
+    if v < 0:               # a minus sign: only blanks may surround it
+        return plain if k < 0.7 else " " + plain + " "
     if k < 0.6:
         return plain
     if k < 0.7:
@@ -121,9 +135,23 @@ def num(q, rng=None):
     return ("%.1E" % v) if (v * 10) % 10 == 0 and v < 10 else "%.3f" % v
 
 
-def tim(q):
+def tim(q, rng=None):
+    """an instant, in one of several spellings dateutil reads alike"""
     zone, q = divmod(q, project.ZONE)
-    return (project.BASE + _dt.timedelta(seconds=q / 4.0)).isoformat() + ("", "Z", "+01:00")[zone]
+    d = project.BASE + _dt.timedelta(seconds=q / 4.0)
+    k = rng.random() if rng is not None else 1.0
+    if k < 0.1:
+        return "\n      " + d.isoformat() + ("", "Z", "+01:00", "-05:00")[zone] + "\n    "      # a value on a line of its own
+    if k < 0.2:
+        return d.isoformat(sep=" ") + ("", " UTC", " +01:00", " -05:00")[zone]                # blank instead of T, blank before the offset
+    if k < 0.25 and q % 4 == 0:
+        return d.strftime("%a, %d %b %Y %H:%M:%S") + ("", " GMT", " +0100", " -0500")[zone]   # RFC 2822 style
+    return d.isoformat() + ("", "Z", "+01:00", "-05:00")[zone]
+
+
+NESTED_STORY = ("<story><storyID>ARCHIVE-77</storyID><storySlug>archived</storySlug><mosExternalMetadata><mosPayload>"
+                "<StoryDuration>500</StoryDuration><StoryStarted>2019-12-31T00:00:00</StoryStarted></mosPayload></mosExternalMetadata>"
+                "<p>archived paragraph</p><item><itemID>OLD1</itemID><itemSlug>old</itemSlug></item></story>")
 
 
 def render_item(iv):
@@ -157,11 +185,13 @@ def render_view(v, rng):
             out.append("<mosExternalMetadata><mosSchema>sch.time</mosSchema></mosExternalMetadata>")
         elif s["md"] == "payload":
             pay = []
-            for tag, key, f in (("StoryStarted", "st", tim), ("StoryDuration", "sd", lambda q: num(q, rng)),
+            for tag, key, f in (("StoryStarted", "st", lambda q: tim(q, rng)), ("StoryDuration", "sd", lambda q: num(q, rng)),
                                 ("TextTime", "tt", lambda q: num(q, rng)), ("MediaTime", "mt", lambda q: num(q, rng)),
-                                ("StoryEnded", "en", tim)):
+                                ("StoryEnded", "en", lambda q: tim(q, rng))):
                 if s[key]:
                     pay.append("<%s>%s</%s>" % (tag, f(s[key][0]), tag))
+            if rng.random() < 0.3:          # an archived version of the story inside the payload: not a story of the running order
+                pay.append(NESTED_STORY)
             out.append("<mosExternalMetadata><mosSchema>sch.time</mosSchema><mosPayload><Approved>1</Approved>%s</mosPayload>"
                        "</mosExternalMetadata>" % "".join(pay))
         items = list(s["items"])
@@ -172,7 +202,7 @@ def render_view(v, rng):
             elif b["kind"] == "item":
                 out.append(render_item(items.pop(0)))
             else:
-                out.append("<storyNote>other element</storyNote>")
+                out.append("<storyNote>other element</storyNote>" if rng.random() < 0.6 else "<linked>%s</linked>" % NESTED_STORY)
         out.append("</story>")
     out += ["</roCreate>", "</mos>"]
     return nl.join(out)
@@ -206,7 +236,10 @@ def _chunk(args):
         if json.dumps(strip_md(seen), sort_keys=True) != json.dumps(strip_md(v), sort_keys=True):
             out.append({"id": vid, "machinery": "view round trip failed: %s vs %s" % (json.dumps(seen)[:300], json.dumps(strip_md(v))[:300])})
             continue
-        obs = observe(ro)
+        # naive local times: the process's time zone must not matter
+        os.environ["TZ"] = ("Pacific/Kiritimati", "America/St_Johns", "UTC")[len(out) % 3]
+        time.tzset()
+        obs = observe_twice(ro)
         out.append({"id": vid, "view": seen, "obs": obs, "text": text})
     return out
 
@@ -215,7 +248,8 @@ def big_views():
     """running orders beyond the enumeration: 11, 12 and 25 stories (offsets are sums of ten and more durations, story
     numbers get a second digit), one of them starting ten seconds before midnight"""
     out = []
-    for n, ed in ((12, [400]), (25, [86390 * 4]), (11, [])):
+    feb29 = (59 * 86400 + 86398) * 4            # 2020-02-29T23:59:58
+    for n, ed in ((12, [400]), (25, [86390 * 4]), (11, []), (16, [feb29 + 1]), (32, [feb29 + project.ZONE])):
         stories = []
         for i in range(1, n + 1):
             kind = i % 4
@@ -224,11 +258,26 @@ def big_views():
                     {"kind": "item", "text": [], "mixed": False, "id": "I1"}]
             stories.append({"id": sid, "slug": "slug " + sid, "md": "payload",
                             "sd": [20 + i] if kind in (0, 1) else [], "tt": [12 + 4 * i] if kind == 2 else ([8] if kind == 3 else []),
-                            "mt": [10 + i] if kind == 3 else [], "st": [], "en": [8000 + 40 * i] if i == n - 1 else [],
+                            "mt": [10 + i] if kind == 3 else [], "st": [4001 + 40 * i] if i == 3 else [],       # a quarter past the second
+                            "en": [8000 + 40 * i] if i == n - 1 else [],
                             "body": body,
                             "items": [{"id": "I1", "slug": "slug I1", "type": "VIDEO", "object_id": "obj.I1", "mos_id": "mos.x",
                                        "note": "note I1"}]})
         out.append({"edstart": ed, "exact": True, "stories": stories})
+    return out
+
+
+def long_text_views():
+    """paragraphs of 1 500 characters: plain, bracketed, padded with every kind of blank"""
+    base = [ord(c) for c in ("lorem ipsum \u00e9\u0301 " * 100)][:1500]
+    texts = [base, [40] + base + [41], [32, 9, 160, 8201] + base + [10, 13, 32], [60] + base + [62, 32], [40] + base,
+             [32] * 1500]
+    out = []
+    for t in texts:
+        body = [{"kind": "p", "text": t, "mixed": False, "id": NONE}, {"kind": "item", "text": [], "mixed": False, "id": "I1"}]
+        out.append({"edstart": [], "exact": True, "stories": [
+            {"id": "S1", "slug": "slug S1", "md": "payload", "sd": [20], "tt": [], "mt": [], "st": [], "en": [], "body": body,
+             "items": [{"id": "I1", "slug": "slug I1", "type": "VIDEO", "object_id": "obj.I1", "mos_id": "mos.x", "note": "note I1"}]}]})
     return out
 
 
@@ -251,6 +300,8 @@ def run(report, tier, seed, families):
         views.sort(key=lambda v: json.dumps(v, sort_keys=True))
         if fam == "timing":
             views += big_views()
+        else:
+            views += long_text_views()
         todo = [("%s:%d" % (fam, i), v) for i, v in enumerate(views)]
         chunks = [(todo[i:i + 200], seed) for i in range(0, len(todo), 200)]
         ctx = multiprocessing.get_context("fork")
